@@ -1,5 +1,6 @@
 import PxProofs.ForwardEmit
 import PxProofs.ForwardSem
+import PxProofs.ForwardLex
 /-!
 # C02 — the forwarded HTTP request is semantically identical to the client's
 
@@ -230,6 +231,14 @@ theorem C02_no_credentials (first : Bool) (cfg : Cfg) (hc : CfgOk cfg) (segs : L
           simp only [hb, Except.map, Except.ok.injEq] at h
           subst h
           exact key p hi hb
+
+/-- **C02 (forwarded lines are well formed).**  Every field line of the forwarded message is
+`token ":" SP field-value`: legal name, no CR / LF / control byte in the value, no OWS at its ends —
+so the rendering `render (fwdImpl …)` of `C02_first` / `C02_later_partial` reads back unambiguously
+and re-serialisation cannot inject or merge header lines. -/
+theorem C02_forwarded_fields_wellformed (first : Bool) (cfg : Cfg) (ha : AgentOk cfg) (r : Req) (hwf : r.WF) :
+    ∀ f ∈ (fwdImpl first cfg r).fields, fieldOk f = true :=
+  fwdImpl_fieldOk first cfg ha r hwf
 
 /-! ## the client's Via is appended to (regression of fixed finding D25) -/
 
